@@ -29,6 +29,9 @@ struct Parts {
     /// A and two healthy actors subscribe to a broker topic; a publication made after A's
     /// failure - A's address still held - reaches both healthy ones
     broker: bool,
+    /// the start that fails (causes StartErr / StartPanic) is the one of a *restart*, requested
+    /// by the driver at t=2: the first incarnation ran, registered its timers, took its children
+    on_restart: bool,
 }
 
 struct S {
@@ -73,6 +76,8 @@ impl Scene for S {
     fn roles(&self) -> Vec<RoleCfg> {
         let mut v = vec![RoleCfg::default(); 5];
         match self.cause {
+            Cause::StartErr if self.parts.on_restart => v[0].started = vec![StartBeh::Ok, StartBeh::Err],
+            Cause::StartPanic if self.parts.on_restart => v[0].started = vec![StartBeh::Ok, StartBeh::Panic],
             Cause::StartErr => v[0].started.push(StartBeh::Err),
             Cause::StartPanic => v[0].started.push(StartBeh::Panic),
             Cause::HandlerPanic(_) => v[0].work.push((PANIC_MSG, Work { panic: true, ..Work::default() })),
@@ -126,6 +131,7 @@ impl Scene for S {
             Cause::HandlerPanic(_) => vec![Op::Send(H::Addr(0), PANIC_MSG)],
             Cause::TimeoutFail(_) => vec![Op::Send(H::Addr(0), SLOW_MSG)],
             Cause::StoppedPanic | Cause::Cancel(_) => vec![Op::Stop(H::Addr(0))],
+            Cause::StartErr | Cause::StartPanic if p.on_restart => vec![Op::Sleep(2), Op::Restart(H::Addr(0))],
             _ => vec![],
         };
         exec.spawn_client(DRIVER, run_client(DRIVER, Handles::with_addr(a.clone()), ops));
@@ -424,12 +430,17 @@ fn base_cases(tier: Tier) -> Vec<Case> {
         ("timers+children", Parts { timers: true, children: true, ..Parts::default() }),
         ("bystander+registry", Parts { bystander: true, registry: true, ..Parts::default() }),
         ("broker", Parts { broker: true, ..Parts::default() }),
+        ("timers, the start of a restart fails", Parts { timers: true, on_restart: true, ..Parts::default() }),
+        ("children+later-ops, the start of a restart fails", Parts { children: true, late_ops: true, on_restart: true, ..Parts::default() }),
     ];
-    let full = Parts { bystander: true, children: true, timers: true, registry: true, awaiters: true, late_ops: true, broker: false };
+    let full = Parts { bystander: true, children: true, timers: true, registry: true, awaiters: true, late_ops: true, broker: false, on_restart: false };
     let mbs: &[Mailbox] = if tier == Tier::Quick { &[Mailbox::U] } else { &[Mailbox::U, Mailbox::B(1)] };
     for cause in causes(tier) {
         for &mb in mbs {
             for (name, parts) in &subs {
+                if parts.on_restart && !matches!(cause, Cause::StartErr | Cause::StartPanic) {
+                    continue;
+                }
                 // A is spawned after its children: its index among backend-spawned tasks
                 let a_index = if parts.children { 2 } else { 0 };
                 let big = matches!(*name, "timers+children" | "bystander+registry" | "awaiters+owner" | "broker");
